@@ -16,6 +16,15 @@ def forall(fn, *ranges):
     return True
 
 
+def forall_real(fn, n=1, samples=4000, lo=-2.0, hi=40.0, seed=0):
+    """native stand-in for a quantifier over reals: dense random sampling (replay only; never a proof)"""
+    rng = np.random.default_rng(seed)
+    for _ in range(samples):
+        if not fn(*[float(x) for x in rng.uniform(lo, hi, size=n)]):
+            return False
+    return True
+
+
 def implies(a, b):
     return (not a) or bool(b)
 
@@ -54,7 +63,7 @@ def close(a, b, tol=1e-4):
     return abs(float(a) - float(b)) <= tol * max(1.0, abs(float(a)), abs(float(b)))
 
 
-HELPERS = dict(forall=forall, implies=implies, ite=ite, iff=iff, shape_eq=shape_eq, fftindex=fftindex,
+HELPERS = dict(forall=forall, forall_real=forall_real, implies=implies, ite=ite, iff=iff, shape_eq=shape_eq, fftindex=fftindex,
                trunc=trunc, floor=floor, ceil=ceil, close=close)
 
 
@@ -69,3 +78,9 @@ def _generic_array(shape, kind="real", seed=0):
     if kind == "int":
         return np.arange(n, dtype=np.int64).reshape(shape) * 3 + 1
     return a.astype(np.float32)
+
+
+def _rotation_from_matrix(m):
+    from scipy.spatial.transform import Rotation
+    m = np.array(m, dtype=np.float64)
+    return Rotation.from_matrix(m)
